@@ -312,7 +312,76 @@ func init() {
 
 	// ---- fmt / errors ----
 	R("fmt.Sprintf", func(m *Machine, a []Value) Value { return m.sprintf(a[0].(string), a[1].(*SliceV).A) })
-	R("fmt.Errorf", func(m *Machine, a []Value) Value { return m.errorValue2(m.sprintf(a[0].(string), a[1].(*SliceV).A)) })
+	R("fmt.Errorf", func(m *Machine, a []Value) Value {
+		format := a[0].(string)
+		args := a[1].(*SliceV).A
+		msg := m.sprintf(strings.ReplaceAll(format, "%w", "%v"), args)
+		// one %w: the result wraps that operand (errors.Is / errors.Unwrap see through it)
+		if strings.Count(format, "%w") == 1 {
+			ai := 0
+			for i := 0; i+1 < len(format); i++ {
+				if format[i] != '%' {
+					continue
+				}
+				if format[i+1] == '%' {
+					i++
+					continue
+				}
+				if format[i+1] == 'w' {
+					break
+				}
+				ai++
+			}
+			if ai < len(args) {
+				if w, ok := args[ai].(Iface); ok && w.T != nil {
+					if fp := m.prog.ImportedPackage("fmt"); fp != nil && fp.Type("wrapError") != nil {
+						return Iface{T: ptrTo(fp.Type("wrapError").Type()), V: newCell(Struct{msg, w})}
+					}
+				}
+			}
+		}
+		return m.errorValue2(msg)
+	})
+	unwrap := func(m *Machine, e Iface) (Iface, bool) {
+		if e.T != nil && e.T.String() == "*fmt.wrapError" {
+			if p, ok := e.V.(Ptr); ok && p != nil {
+				if in, ok := (*p).(Struct)[1].(Iface); ok {
+					return in, true
+				}
+			}
+		}
+		return Iface{}, false
+	}
+	R("(*fmt.wrapError).Error", func(m *Machine, a []Value) Value { return (*(a[0].(Ptr))).(Struct)[0] })
+	R("(*fmt.wrapError).Unwrap", func(m *Machine, a []Value) Value { return (*(a[0].(Ptr))).(Struct)[1] })
+	R("errors.Unwrap", func(m *Machine, a []Value) Value {
+		e, _ := a[0].(Iface)
+		in, _ := unwrap(m, e)
+		return in
+	})
+	// errors.Is over the error values of this model: identity of comparable (pointer) errors along the %w chain
+	R("errors.Is", func(m *Machine, a []Value) Value {
+		e, _ := a[0].(Iface)
+		t, _ := a[1].(Iface)
+		for depth := 0; depth < 16; depth++ {
+			if e.T == nil {
+				return t.T == nil
+			}
+			if t.T != nil && types.Identical(e.T, t.T) {
+				ep, ok1 := e.V.(Ptr)
+				tp, ok2 := t.V.(Ptr)
+				if ok1 && ok2 && ep == tp {
+					return true
+				}
+			}
+			in, ok := unwrap(m, e)
+			if !ok {
+				return false
+			}
+			e = in
+		}
+		return false
+	})
 	R("fmt.Sprint", func(m *Machine, a []Value) Value {
 		var ps []Value
 		for _, x := range a[0].(*SliceV).A {
